@@ -53,7 +53,8 @@ CLAIMS.update({
                     "EqualOrder/Has/Index round trip, SAdd, Time and TimeIndex algebra for every index, queue queries for every Position on queues of 0..2 mutations, "
                     "ParseStates, Event.Export/Clone without a machine, copying getters, every When* with nil and live contexts. Any reachable panic is a violation; "
                     "the genuine defects found this way (S.Delete, ParseStates, IsQueued, Event.Export, WhenQuery ctx, DetachHandlers, PoolFork) were repaired (fix commits in known_findings.json).",
-            "note": "Assumes documented preconditions only. pkg/helpers and pkg/integrations kernels are outside this revision's claim. Trusted: go/ssa, symgo, z3.",
+            "note": "Assumes documented preconditions only. Of pkg/helpers only the Cant*/Ask* helpers are encoded (CantRemove/AskRemove answering the opposite was found and repaired); the wait "
+                    "helpers and pkg/integrations are outside this revision's claim. Trusted: go/ssa, symgo, z3.",
             "technique": TECH_FORK, "design_ref": "DESIGN.md section 4 (C20)"},
     "C04": {"text": "A mutation (any kind, any called set) issued from inside any handler call of a running transition - alone, after a CanAdd1 check from the same handler, or "
                     "followed by an Eval whose context has already ended - is executed path by path through the real queueMutation/PrependMut/processQueue: never run nested, "
